@@ -15,6 +15,7 @@ import (
 
 func init() {
 	Registry["C15"] = c15
+	SelfTests["C15"] = c15selftest
 }
 
 var c15Writes = []string{"AddVertex", "AddEdge", "BulkAdd", "DelVertex", "DelEdge", "AddVertexIndex", "DeleteVertexIndex"}
@@ -81,11 +82,18 @@ func reachesMethodOf(p *core.Prog, fi *core.FuncInfo, pkgPath, tname string, dep
 func c15(p *core.Prog, res *core.Result) {
 	res.Explanation = "C15 (structural clauses): W1 every write entry point of the gripper driver (TabularGraph.{AddVertex,AddEdge,BulkAdd,DelVertex,DelEdge,AddVertexIndex,DeleteVertexIndex}, TabularGDB.{AddGraph,DeleteGraph}) " +
 		"returns a certainly non-nil error on every path and its call tree contains no call on the table-service client; " +
-		"W2 the synthetic edge-id builder (EdgeSource.GenID) and parser (TabularGraph.ParseEdge) agree: same separator, the parser demands exactly the number of components the builder emits, and hands back source/label/target from the positions the builder put them."
-	res.NotDecided = []string{"one vertex per row, edge synthesis, equivalence with the materialised graph (value-level)", "the label-start optimiser keeping only the last leading hasLabel (a value-level rewrite bug)",
+		"W2 the synthetic edge-id builder (EdgeSource.GenID) and parser (TabularGraph.ParseEdge) agree: same separator, the parser demands exactly the number of components the builder emits, and hands back source/label/target from the positions the builder put them; " +
+		"W3 exhaustive scans — every loop over the mapped graph's table lists (the ordered vertex/edge source lists, the per-vertex edge tables) is left early only on cancellation, with an error, or by a point lookup returning the element it found (a certainly non-nil pointer): no break, no bare return, no `return nil`/possibly-nil result from inside the scan."
+	res.NotDecided = []string{"that each visited table is read completely (DriverCache.FetchRows under concurrent loading)", "one vertex per row, edge synthesis, equivalence with the materialised graph (value-level)", "the label-start optimiser keeping only the last leading hasLabel (a value-level rewrite bug)",
 		"row/prefix ids that themselves contain the '-' separator"}
 	res.Rule("W1", "gripper write entry points refuse on every path and never reach the table-service client", 9)
 	res.Rule("W2", "GenID / ParseEdge agreement", 1)
+	res.Rule("W3", "every loop over the mapped tables visits all of them", 14)
+	if tg := p.Named("gripper", "TabularGraph"); tg != nil {
+		c15scans(p, res, tg, "W3")
+	} else {
+		res.Fail("gripper.TabularGraph not found")
+	}
 	pkgGripper := core.ModPath + "/gripper"
 	check := func(tn string, names []string) {
 		named := p.Named("gripper", tn)
@@ -225,5 +233,460 @@ func c15(p *core.Prog, res *core.Result) {
 		res.Bad("W2", key, p.Pos(par.Decl.Pos()), strings.Join(dedup(problems), "; "))
 	} else {
 		res.OK("W2", key, p.Pos(par.Decl.Pos()), fmt.Sprintf("%d GenID shapes: separator %q, %d components, label in the middle; ParseEdge reads (0,2,1)", len(shapes), psep, pn))
+	}
+}
+
+// ---- W3: scans over the mapped tables are exhaustive --------------------
+
+// c15tableFields returns the fields of the mapped-graph type that enumerate
+// its source tables: slice-typed fields (the ordered table lists) and
+// map-typed fields whose elements are slices (the per-vertex edge tables).
+func c15tableFields(named *types.Named) (lists, maps map[types.Object]bool) {
+	lists, maps = map[types.Object]bool{}, map[types.Object]bool{}
+	st, ok := named.Underlying().(*types.Struct)
+	if !ok {
+		return
+	}
+	for i := 0; i < st.NumFields(); i++ {
+		f := st.Field(i)
+		switch u := f.Type().Underlying().(type) {
+		case *types.Slice:
+			lists[f] = true
+		case *types.Map:
+			if _, ok := u.Elem().Underlying().(*types.Slice); ok {
+				maps[f] = true
+			}
+		}
+	}
+	return
+}
+
+type c15exit struct {
+	pos  token.Pos
+	what string
+}
+
+// c15scanExits checks every loop over a table list of the mapped graph in body
+// (the body of a function or of a function literal; sig is its signature) and
+// reports the statements that leave such a loop before all tables were
+// visited, other than on cancellation, with an error, or with the element a
+// point lookup was looking for.
+func c15scanExits(info *types.Info, body *ast.BlockStmt, sig *types.Signature, lists, maps map[types.Object]bool, each func(loop ast.Stmt, what string, exits []c15exit)) {
+	fieldOf := func(e ast.Expr) types.Object {
+		if sel, ok := ast.Unparen(e).(*ast.SelectorExpr); ok {
+			return info.Uses[sel.Sel]
+		}
+		return nil
+	}
+	// locals that hold one vertex's edge tables: x := t.outEdges[k]
+	tableLocals := map[types.Object]bool{}
+	ast.Inspect(body, func(n ast.Node) bool {
+		if as, ok := n.(*ast.AssignStmt); ok && len(as.Lhs) == len(as.Rhs) {
+			for i, r := range as.Rhs {
+				if ix, ok := ast.Unparen(r).(*ast.IndexExpr); ok && maps[fieldOf(ix.X)] {
+					if o := defOrUse(info, as.Lhs[i]); o != nil {
+						tableLocals[o] = true
+					}
+				}
+			}
+		}
+		return true
+	})
+	isTables := func(e ast.Expr) bool {
+		e = ast.Unparen(e)
+		if lists[fieldOf(e)] {
+			return true
+		}
+		if ix, ok := e.(*ast.IndexExpr); ok && maps[fieldOf(ix.X)] {
+			return true
+		}
+		if id, ok := e.(*ast.Ident); ok && tableLocals[info.Uses[id]] {
+			return true
+		}
+		return false
+	}
+	isCtx := func(e ast.Expr) bool {
+		t := info.TypeOf(e)
+		return t != nil && types.TypeString(t, nil) == "context.Context"
+	}
+	isCtxCall := func(e ast.Expr, names ...string) bool {
+		c, ok := ast.Unparen(e).(*ast.CallExpr)
+		if !ok {
+			return false
+		}
+		sel, ok := c.Fun.(*ast.SelectorExpr)
+		if !ok || !isCtx(sel.X) {
+			return false
+		}
+		for _, n := range names {
+			if sel.Sel.Name == n {
+				return true
+			}
+		}
+		return false
+	}
+	// cancelCond: the expression is a receive from / a call of ctx.Done()
+	cancelCond := func(e ast.Expr) bool {
+		found := false
+		ast.Inspect(e, func(x ast.Node) bool {
+			if ex, ok := x.(ast.Expr); ok && isCtxCall(ex, "Done") {
+				found = true
+			}
+			return true
+		})
+		return found
+	}
+	// evalLive evaluates a condition under the assumption that the context is
+	// NOT cancelled (ctx.Err() == nil): 0 false, 1 true, 2 unknown.  A branch
+	// taken only when the value is impossible under that assumption runs only
+	// after cancellation.
+	var evalLive func(e ast.Expr) int
+	evalLive = func(e ast.Expr) int {
+		switch x := ast.Unparen(e).(type) {
+		case *ast.UnaryExpr:
+			if x.Op == token.NOT {
+				switch evalLive(x.X) {
+				case 0:
+					return 1
+				case 1:
+					return 0
+				}
+			}
+		case *ast.BinaryExpr:
+			switch x.Op {
+			case token.LAND:
+				a, b := evalLive(x.X), evalLive(x.Y)
+				if a == 0 || b == 0 {
+					return 0
+				}
+				if a == 1 && b == 1 {
+					return 1
+				}
+			case token.LOR:
+				a, b := evalLive(x.X), evalLive(x.Y)
+				if a == 1 || b == 1 {
+					return 1
+				}
+				if a == 0 && b == 0 {
+					return 0
+				}
+			case token.EQL, token.NEQ:
+				var other ast.Expr
+				if isCtxCall(x.X, "Err") {
+					other = x.Y
+				} else if isCtxCall(x.Y, "Err") {
+					other = x.X
+				}
+				if other != nil {
+					isNil := false
+					if id, ok := ast.Unparen(other).(*ast.Ident); ok && id.Name == "nil" {
+						isNil = true
+					}
+					eq := 0 // ctx.Err() == <non-nil error> is false while live
+					if isNil {
+						eq = 1
+					}
+					if x.Op == token.NEQ {
+						eq = 1 - eq
+					}
+					return eq
+				}
+			}
+		}
+		return 2
+	}
+	nonNilGuard := func(guards []ast.Expr, o types.Object) bool {
+		for _, g := range guards {
+			ok := false
+			ast.Inspect(g, func(x ast.Node) bool {
+				if be, isB := x.(*ast.BinaryExpr); isB && be.Op == token.NEQ {
+					a, b := ast.Unparen(be.X), ast.Unparen(be.Y)
+					if id, isI := b.(*ast.Ident); isI && id.Name == "nil" {
+						if defOrUse(info, a) == o {
+							ok = true
+						}
+					}
+					if id, isI := a.(*ast.Ident); isI && id.Name == "nil" {
+						if defOrUse(info, b) == o {
+							ok = true
+						}
+					}
+				}
+				return true
+			})
+			if ok {
+				return true
+			}
+		}
+		return false
+	}
+	errType := types.Universe.Lookup("error").Type()
+	var scan func(loop ast.Stmt, lbody *ast.BlockStmt, what string)
+	var findLoops func(n ast.Node, fsig *types.Signature)
+	labels := map[ast.Stmt]types.Object{}
+	ast.Inspect(body, func(n ast.Node) bool {
+		if ls, ok := n.(*ast.LabeledStmt); ok {
+			labels[ls.Stmt] = info.Defs[ls.Label]
+		}
+		return true
+	})
+	curSig := sig
+	scan = func(loop ast.Stmt, lbody *ast.BlockStmt, what string) {
+		var exits []c15exit
+		var walk func(n ast.Node, target ast.Stmt, guards []ast.Expr, cancel bool)
+		walk = func(n ast.Node, target ast.Stmt, guards []ast.Expr, cancel bool) {
+			switch s := n.(type) {
+			case nil:
+				return
+			case *ast.FuncLit:
+				return
+			case *ast.BlockStmt:
+				for _, x := range s.List {
+					walk(x, target, guards, cancel)
+				}
+			case *ast.LabeledStmt:
+				walk(s.Stmt, target, guards, cancel)
+			case *ast.IfStmt:
+				g := append(append([]ast.Expr{}, guards...), s.Cond)
+				live := evalLive(s.Cond)
+				walk(s.Body, target, g, cancel || live == 0)
+				if s.Else != nil {
+					walk(s.Else, target, guards, cancel || live == 1)
+				}
+			case *ast.ForStmt:
+				walk(s.Body, s, guards, cancel)
+			case *ast.RangeStmt:
+				walk(s.Body, s, guards, cancel)
+			case *ast.SwitchStmt:
+				for _, cc := range s.Body.List {
+					c := cc.(*ast.CaseClause)
+					g, cn := guards, cancel
+					for _, e := range c.List {
+						g = append(append([]ast.Expr{}, g...), e)
+						if s.Tag == nil && len(c.List) == 1 && evalLive(e) == 0 {
+							cn = true
+						}
+					}
+					for _, x := range c.Body {
+						walk(x, s, g, cn)
+					}
+				}
+			case *ast.TypeSwitchStmt:
+				for _, cc := range s.Body.List {
+					for _, x := range cc.(*ast.CaseClause).Body {
+						walk(x, s, guards, cancel)
+					}
+				}
+			case *ast.SelectStmt:
+				for _, cc := range s.Body.List {
+					c := cc.(*ast.CommClause)
+					cn := cancel
+					if c.Comm != nil {
+						ast.Inspect(c.Comm, func(x ast.Node) bool {
+							if u, ok := x.(*ast.UnaryExpr); ok && u.Op == token.ARROW && cancelCond(u.X) {
+								cn = true
+							}
+							return true
+						})
+					}
+					for _, x := range c.Body {
+						walk(x, s, guards, cn)
+					}
+				}
+			case *ast.BranchStmt:
+				switch s.Tok {
+				case token.BREAK:
+					t := target
+					if s.Label != nil {
+						t = nil
+						for st, lo := range labels {
+							if lo == info.Uses[s.Label] {
+								t = st
+							}
+						}
+					}
+					if t == loop && !cancel {
+						exits = append(exits, c15exit{s.Pos(), "break out of the scan"})
+					}
+				case token.GOTO:
+					exits = append(exits, c15exit{s.Pos(), "goto out of the scan"})
+				}
+			case *ast.ReturnStmt:
+				if cancel {
+					return
+				}
+				if len(s.Results) == 0 {
+					exits = append(exits, c15exit{s.Pos(), "return stops the scan"})
+					return
+				}
+				// an error abort: some result of type error that is not the nil literal
+				abort, found, undecided := false, false, ""
+				for i, r := range s.Results {
+					r = ast.Unparen(r)
+					var rt types.Type
+					if curSig != nil && i < curSig.Results().Len() {
+						rt = curSig.Results().At(i).Type()
+					}
+					isNil := false
+					if id, ok := r.(*ast.Ident); ok && id.Name == "nil" {
+						isNil = true
+					}
+					if rt != nil && types.Identical(rt, errType) {
+						if !isNil {
+							abort = true
+						}
+						continue
+					}
+					if _, isPtr := rtUnder(rt).(*types.Pointer); isPtr {
+						switch {
+						case isNil:
+							undecided = "returns nil (not found) from inside the scan"
+						case isAddrOf(r):
+							found = true
+						default:
+							if o := defOrUse(info, r); o != nil && nonNilGuard(guards, o) {
+								found = true
+							} else {
+								undecided = fmt.Sprintf("returns %s, which may be nil, from inside the scan", types.ExprString(r))
+							}
+						}
+					}
+				}
+				switch {
+				case abort:
+				case undecided != "":
+					exits = append(exits, c15exit{s.Pos(), undecided})
+				case found:
+				default:
+					exits = append(exits, c15exit{s.Pos(), "return stops the scan"})
+				}
+			default:
+				// other statements contain no exits of interest (expressions, sends, assignments)
+			}
+		}
+		walk(lbody, loop, nil, false)
+		each(loop, what, exits)
+	}
+	findLoops = func(n ast.Node, fsig *types.Signature) {
+		ast.Inspect(n, func(x ast.Node) bool {
+			switch s := x.(type) {
+			case *ast.FuncLit:
+				if s.Body != n {
+					saved := curSig
+					ls, _ := info.TypeOf(s).(*types.Signature)
+					curSig = ls
+					findLoops(s.Body, ls)
+					curSig = saved
+					return false
+				}
+			case *ast.RangeStmt:
+				if isTables(s.X) {
+					saved := curSig
+					curSig = fsig
+					scan(s, s.Body, types.ExprString(s.X))
+					curSig = saved
+				}
+			case *ast.ForStmt:
+				if s.Cond != nil {
+					hit := ""
+					ast.Inspect(s.Cond, func(y ast.Node) bool {
+						if c, ok := y.(*ast.CallExpr); ok && len(c.Args) == 1 {
+							if id, ok := c.Fun.(*ast.Ident); ok && id.Name == "len" && isTables(c.Args[0]) {
+								hit = types.ExprString(c.Args[0])
+							}
+						}
+						return true
+					})
+					if hit != "" {
+						saved := curSig
+						curSig = fsig
+						scan(s, s.Body, hit)
+						curSig = saved
+					}
+				}
+			}
+			return true
+		})
+	}
+	findLoops(body, sig)
+}
+
+func rtUnder(t types.Type) types.Type {
+	if t == nil {
+		return nil
+	}
+	return t.Underlying()
+}
+
+func isAddrOf(e ast.Expr) bool {
+	u, ok := ast.Unparen(e).(*ast.UnaryExpr)
+	return ok && u.Op == token.AND
+}
+
+// c15scans applies W3 to every function of the package of named.
+func c15scans(p *core.Prog, res *core.Result, named *types.Named, rule string) int {
+	lists, maps := c15tableFields(named)
+	n := 0
+	for _, fi := range p.AllDecls() {
+		if fi.Pkg.Types != named.Obj().Pkg() || fi.Decl.Body == nil || strings.HasSuffix(p.Fset.Position(fi.Decl.Pos()).Filename, "_test.go") {
+			continue
+		}
+		info := fi.Pkg.TypesInfo
+		fkey := core.FuncKey(fi.Obj)
+		k := 0
+		sig, _ := fi.Obj.Type().(*types.Signature)
+		c15scanExits(info, fi.Decl.Body, sig, lists, maps, func(loop ast.Stmt, what string, exits []c15exit) {
+			k++
+			n++
+			res.Fn(fkey)
+			key := fmt.Sprintf("%s|scan#%d", fkey, k)
+			if len(exits) == 0 {
+				res.OK(rule, key, p.Pos(loop.Pos()), "the loop over "+what+" is left only when all tables were visited, on cancellation, with an error, or with the element found")
+				return
+			}
+			var ws, path []string
+			for _, e := range exits {
+				ws = append(ws, fmt.Sprintf("%s at %s", e.what, p.Pos(e.pos)))
+				path = append(path, p.Pos(e.pos)+": "+e.what)
+			}
+			res.Bad(rule, key, p.Pos(loop.Pos()), fmt.Sprintf("%s: the loop over the mapped tables (%s) can end before every table was visited — %s: rows of the remaining tables (a second table mapped to the same label, or a vertex type whose id prefix extends another's) are missing from the result, so the exposed graph is not the graph the mapping describes", fkey, what, strings.Join(ws, "; ")), path...)
+		})
+	}
+	return n
+}
+
+func c15selftest(st *core.Prog, res *core.Result) {
+	named := st.Named(core.SelfMod+"/c15", "Tab")
+	if named == nil {
+		res.Fail("C15 self-test package did not load")
+		return
+	}
+	tmp := core.NewResult("C15", "self")
+	c15scans(st, tmp, named, "W3")
+	n := 0
+	for _, o := range tmp.Obls {
+		parts := strings.Split(o.Key, "|")
+		if len(parts) < 2 {
+			continue
+		}
+		name := parts[1][strings.LastIndex(parts[1], ".")+1:]
+		var want core.Status
+		switch {
+		case strings.HasPrefix(name, "Ok"):
+			want = core.Discharged
+		case strings.HasPrefix(name, "Bad"):
+			want = core.Violated
+		default:
+			continue
+		}
+		n++
+		if o.Status != want {
+			res.Fail("self-test %s: W3 gave %s, expected %s (%s)", name, o.Status, want, o.Note)
+		} else {
+			res.OKTrivial("SELF", "selftest|c15."+name+"|"+parts[len(parts)-1], "-", "W3 gives "+string(o.Status)+" as expected")
+		}
+	}
+	if n < 9 {
+		res.Fail("C15 self-test: only %d scan loops found in the examples", n)
 	}
 }
